@@ -329,6 +329,9 @@ func crEval(cs crCase) []core.Finding {
 	if len(cs.Text) > 10000 {
 		limit = 40 * time.Second
 	}
+	if len(cs.Text) > 100000 {
+		limit = 300 * time.Second // Example() is quadratic in the nesting depth: seconds at this size on an idle machine
+	}
 	select {
 	case o := <-done:
 		return o.findings
